@@ -411,7 +411,18 @@ def run(run):
         cc.append({"ops": [{"gate": a, "q": [q + 2 for q in range(arity(a))]}], "n": 7, "pipe": "json"})
         for b in sub:
             cc.append({"ops": [{"gate": a, "q": list(range(arity(a)))}, {"gate": b, "q": [q + 1 for q in range(arity(b))][::-1]}], "n": None, "pipe": "json"})
-    secs.append(Section("circuits", cc, roundtrip_case, horizon=120, desc="empty circuits, idle qubits, all 2-operation combinations of a %d-gate sub-alphabet" % len(sub)))
+    # long circuits and large / multi-digit qubit indices (size thresholds of containers, one-byte and one-word index fields, text widths), many symbols x[0]..x[11] next to x10
+    gs = [G("X"), G("RX", "s:x[10]"), G("RX", "s:x[2]"), G("RZ", 0.1), G("custom1"), G("U3", "s:x[1]", "s:x[11]", "s:x10"), W("controlled", G("RY", "s:theta"), k=1), G("CNOT"), W("dagger", G("T")),
+          G("custom2p", "s:alpha", 0.25), W("power", G("S"), e=3), G("CPHASE", "s:x[0]")]
+    for L_, stride, width in ((70, 1, None), (260, 3, None), (64, 997, None), (65, 64, 4200), (12, 1, 1024)):
+        ops_ = []
+        for i in range(L_):
+            g_ = gs[i % len(gs)]
+            base_q = (i * stride) % (width or 4096)
+            ops_.append({"gate": g_, "q": [base_q + 2 * j_ for j_ in range(arity(g_))][::-1 if i % 2 else 1]})
+        for pipe in ("json", "stringio", "file"):
+            cc.append({"ops": ops_, "n": width, "pipe": pipe})
+    secs.append(Section("circuits", cc, roundtrip_case, horizon=120, desc="empty circuits, idle qubits, all 2-operation combinations of a %d-gate sub-alphabet; circuits of 64-260 operations on qubit indices up to 4200" % len(sub)))
     sets = [{"circuits": [], "pipe": "json"}, {"circuits": [], "pipe": "stringio"}, {"circuits": [{"ops": [], "n": 2}], "pipe": "stringio"}, {"circuits": [{"ops": [], "n": 1}] * 3, "pipe": "json"}]
     one = lambda g: {"ops": [{"gate": g, "q": list(range(arity(g)))}], "n": None}  # noqa: E731
     for a, b in itertools.product(sub[:10], repeat=2):
